@@ -45,6 +45,30 @@ def thorough_extras(ctx: 'core.Ctx', a: argparse.Namespace) -> None:
     }
     for r in missed + noisy:
         print(f'SELFTEST-WARNING {a.prop} {r["id"]}: expected {r["expect"]}, got rc={r.get("rc")} rules={r.get("rules")}')
+    # (1b) twins by construction: whole-package behaviour-preserving rewrites of the analysed tree
+    import shutil
+    import subprocess
+    import tempfile
+    import systematic_twins as sysw
+    sysres = {}
+
+    def one_kind(kind: str) -> tuple[str, int]:
+        d = tempfile.mkdtemp(prefix=f'kfv_tw_{kind}_')
+        try:
+            sysw.make(kind, a.repo, d)
+            r = subprocess.run([sys.executable, os.path.abspath(__file__), a.prop, '--repo', d, '--evidence-dir', os.path.join(d, 'ev')],
+                               capture_output=True, text=True, env=dict(os.environ, KFV_NO_SELFTEST='1'))
+            return kind, r.returncode
+        except Exception as e:  # noqa: BLE001
+            return kind, -1
+        finally:
+            shutil.rmtree(d, ignore_errors=True)
+    with cf.ThreadPoolExecutor(max_workers=9) as ex:
+        for kind, rc in ex.map(one_kind, ['alpha', 'private', 'invert-if', 'flip-eq', 'else-return', 'add-else', 'extract-var', 'inline-var', 'combined']):
+            sysres[kind] = rc
+            if rc != 0:
+                print(f'SELFTEST-WARNING {a.prop} systematic twin {kind}: exit {rc}')
+    ctx.extra['selftest']['systematic_twins'] = sysres
     if a.prop in ('C03', 'C12', 'C18', 'C06', 'C11'):
         from kfv.rules import spmd_rules
         ctx.extra['call_chains'] = spmd_rules.enumerate_chains(ctx)
